@@ -209,22 +209,63 @@ def run(ctx, report: Report) -> None:
     report.extra['bs4_access_census'] = {f'{k[0]} {k[1]}': v for k, v in sorted(census.items())}
     report.extra['any_typed_gaps'] = any_gaps
 
+    # matcher functions never mutate their arguments: values handed in are document objects or values stored in the tree
+    # (attribute value lists are typed Any, so the type-directed census above cannot see them)
+    for q, fn in mmod.functions.items():
+        if not q.startswith(('_DocumentNav.', 'CSSMatch.', 'Inputs.')):
+            continue
+        params = {a.arg for a in fn.args.posonlyargs + fn.args.args + fn.args.kwonlyargs} - {'self', 'cls'}
+        rebound = {t.id for st in walk_no_nested(fn) if isinstance(st, (ast.Assign, ast.AnnAssign, ast.AugAssign, ast.For))
+                   for t in ast.walk(st.targets[0] if isinstance(st, ast.Assign) else st.target)
+                   if isinstance(t, ast.Name) and isinstance(t.ctx, ast.Store)}
+        live = params - rebound
+
+        def may_be(e, names):
+            if isinstance(e, ast.Name):
+                return e.id in names
+            if isinstance(e, ast.IfExp):
+                return may_be(e.body, names) or may_be(e.orelse, names)
+            if isinstance(e, ast.BoolOp):
+                return any(may_be(v, names) for v in e.values)
+            if isinstance(e, ast.Call) and call_name(e) in ('cast', 'typing.cast') and e.args:
+                return may_be(e.args[-1], names)
+            if isinstance(e, ast.NamedExpr):
+                return may_be(e.value, names)
+            return False
+        for _ in range(3):      # locals that may alias an argument (x = arg, x = arg if c else copy, x = cast(T, arg))
+            for st in walk_no_nested(fn):
+                if isinstance(st, ast.Assign) and len(st.targets) == 1 and isinstance(st.targets[0], ast.Name) \
+                        and may_be(st.value, live):
+                    live = live | {st.targets[0].id}
+        for n in walk_no_nested(fn):
+            hit = None
+            if isinstance(n, (ast.Subscript, ast.Attribute)) and isinstance(n.ctx, (ast.Store, ast.Del)) \
+                    and isinstance(n.value, ast.Name) and n.value.id in live:
+                hit = f'writes `{unparse(n)}`'
+            elif isinstance(n, ast.Call) and isinstance(n.func, ast.Attribute) and n.func.attr in MUTATORS \
+                    and isinstance(n.func.value, ast.Name) and n.func.value.id in live:
+                hit = f'calls `{unparse(n)[:50]}`'
+            if hit:
+                r1.instance({'site': f'css_match.{q}', 'argument_mutation': hit}, key=f'css_match.{q}|param|{hit}')
+                r1.violation(f'css_match.{q} mutates its argument: {hit}', mmod.where(n),
+                             f'{q} {hit}, which changes an object handed in by the caller: arguments of the matcher functions are '
+                             f'document nodes or values stored in the tree (attribute value lists), so the query rewrites the document')
+    r1.instance({'rule': 'no matcher function stores into / calls a mutator on one of its parameters'}, key='param-mutation',
+                nontrivial=False)
+
     # ---- R2 --------------------------------------------------------------------------------------------
     r2 = report.rule('C04-R2', 'matcher state is per call', floor=4)
+    # decision table of the SoupSieve methods with a recording stand-in for CSSMatch: one fresh matcher per call target,
+    # scoped on that target, never shared between the items of an iterable
+    from .sem import soupsieve_methods_table
+    soupsieve_methods_table(ctx, r2)
     for name in ('match', 'closest', 'filter', 'iselect'):
         fn = mmod.functions.get(f'SoupSieve.{name}')
         if fn is None:
-            raise AnalysisError(f'SoupSieve.{name} not found')
-        ctors = [c for c in walk_no_nested(fn) if isinstance(c, ast.Call) and call_name(c) == 'CSSMatch']
-        stored = [c for c in ctors if isinstance(mmod.parents.get(c), ast.Assign) and any(
-            isinstance(t, ast.Attribute) for t in mmod.parents[c].targets)]
-        r2.instance({'method': f'SoupSieve.{name}', 'matchers_constructed': len(ctors), 'stored_on_an_object': len(stored)}, key=name)
-        r2.obligation(bool(ctors) and not stored)
-        if not ctors:
-            r2.violation(f'css_match.SoupSieve.{name} no fresh matcher', mmod.where(fn),
-                         f'SoupSieve.{name} does not construct a fresh CSSMatch: memo tables and scope of an earlier call are reused')
-        for c in stored:
-            r2.violation(f'css_match.SoupSieve.{name} stores matcher', mmod.where(c), f'SoupSieve.{name} stores its matcher on an object')
+            continue
+        for c in [c for c in walk_no_nested(fn) if isinstance(c, ast.Call) and call_name(c) == 'CSSMatch']:
+            if isinstance(mmod.parents.get(c), ast.Assign) and any(isinstance(t, ast.Attribute) for t in mmod.parents[c].targets):
+                r2.violation(f'css_match.SoupSieve.{name} stores matcher', mmod.where(c), f'SoupSieve.{name} stores its matcher on an object')
     cg = ctx.get('callgraph', lambda: CallGraph(ctx.types, src))
     reach = cg.reachable([f'css_match.SoupSieve.{x}' for x in ('match', 'closest', 'filter', 'select_one', 'select', 'iselect')])
     report.analysed['match_reachable_functions'] = len(reach)
